@@ -46,6 +46,18 @@ Model/Equiv.vos Model/Equiv.vok Model/Equiv.required_vos: Model/Equiv.v Model/Va
 Model/Render.vo Model/Render.glob Model/Render.v.beautified Model/Render.required_vo: Model/Render.v Gen/Status.vo
 Model/Render.vio: Model/Render.v Gen/Status.vio
 Model/Render.vos Model/Render.vok Model/Render.required_vos: Model/Render.v Gen/Status.vos
+Model/Plug.vo Model/Plug.glob Model/Plug.v.beautified Model/Plug.required_vo: Model/Plug.v 
+Model/Plug.vio: Model/Plug.v 
+Model/Plug.vos Model/Plug.vok Model/Plug.required_vos: Model/Plug.v 
+Model/Commit.vo Model/Commit.glob Model/Commit.v.beautified Model/Commit.required_vo: Model/Commit.v Model/Replay.vo
+Model/Commit.vio: Model/Commit.v Model/Replay.vio
+Model/Commit.vos Model/Commit.vok Model/Commit.required_vos: Model/Commit.v Model/Replay.vos
+Model/Aio.vo Model/Aio.glob Model/Aio.v.beautified Model/Aio.required_vo: Model/Aio.v 
+Model/Aio.vio: Model/Aio.v 
+Model/Aio.vos Model/Aio.vok Model/Aio.required_vos: Model/Aio.v 
+Model/Loop.vo Model/Loop.glob Model/Loop.v.beautified Model/Loop.required_vo: Model/Loop.v 
+Model/Loop.vio: Model/Loop.v 
+Model/Loop.vos Model/Loop.vok Model/Loop.required_vos: Model/Loop.v 
 Model/Sys.vo Model/Sys.glob Model/Sys.v.beautified Model/Sys.required_vo: Model/Sys.v Model/Coro.vo
 Model/Sys.vio: Model/Sys.v Model/Coro.vio
 Model/Sys.vos Model/Sys.vok Model/Sys.required_vos: Model/Sys.v Model/Coro.vos
@@ -181,6 +193,9 @@ Proofs/PC13.vos Proofs/PC13.vok Proofs/PC13.required_vos: Proofs/PC13.v Model/Mo
 Proofs/PC15.vo Proofs/PC15.glob Proofs/PC15.v.beautified Proofs/PC15.required_vo: Proofs/PC15.v Model/Equiv.vo
 Proofs/PC15.vio: Proofs/PC15.v Model/Equiv.vio
 Proofs/PC15.vos Proofs/PC15.vok Proofs/PC15.required_vos: Proofs/PC15.v Model/Equiv.vos
+Proofs/PAio.vo Proofs/PAio.glob Proofs/PAio.v.beautified Proofs/PAio.required_vo: Proofs/PAio.v Model/Aio.vo
+Proofs/PAio.vio: Proofs/PAio.v Model/Aio.vio
+Proofs/PAio.vos Proofs/PAio.vok Proofs/PAio.required_vos: Proofs/PAio.v Model/Aio.vos
 Props/C09.vo Props/C09.glob Props/C09.v.beautified Props/C09.required_vo: Props/C09.v Model/Mon.vo Model/MonC09.vo Proofs/StoreLocks.vo Proofs/Discipline.vo Proofs/SysInv.vo Proofs/PC09.vo
 Props/C09.vio: Props/C09.v Model/Mon.vio Model/MonC09.vio Proofs/StoreLocks.vio Proofs/Discipline.vio Proofs/SysInv.vio Proofs/PC09.vio
 Props/C09.vos Props/C09.vok Props/C09.required_vos: Props/C09.v Model/Mon.vos Model/MonC09.vos Proofs/StoreLocks.vos Proofs/Discipline.vos Proofs/SysInv.vos Proofs/PC09.vos
@@ -211,9 +226,9 @@ Props/C14.vos Props/C14.vok Props/C14.required_vos: Props/C14.v Model/Mon.vos Mo
 Props/C10.vo Props/C10.glob Props/C10.v.beautified Props/C10.required_vo: Props/C10.v Model/Mon.vo Model/MonC10.vo Proofs/PC10.vo
 Props/C10.vio: Props/C10.v Model/Mon.vio Model/MonC10.vio Proofs/PC10.vio
 Props/C10.vos Props/C10.vok Props/C10.required_vos: Props/C10.v Model/Mon.vos Model/MonC10.vos Proofs/PC10.vos
-Props/C06.vo Props/C06.glob Props/C06.v.beautified Props/C06.required_vo: Props/C06.v Model/Mon.vo Model/MonC06.vo Model/MonC01.vo Model/MonC05.vo Model/MonC08.vo Proofs/SysInv.vo Proofs/PC06.vo Proofs/PC01.vo Proofs/PC05.vo Proofs/PC08.vo Gen/Sql.vo
-Props/C06.vio: Props/C06.v Model/Mon.vio Model/MonC06.vio Model/MonC01.vio Model/MonC05.vio Model/MonC08.vio Proofs/SysInv.vio Proofs/PC06.vio Proofs/PC01.vio Proofs/PC05.vio Proofs/PC08.vio Gen/Sql.vio
-Props/C06.vos Props/C06.vok Props/C06.required_vos: Props/C06.v Model/Mon.vos Model/MonC06.vos Model/MonC01.vos Model/MonC05.vos Model/MonC08.vos Proofs/SysInv.vos Proofs/PC06.vos Proofs/PC01.vos Proofs/PC05.vos Proofs/PC08.vos Gen/Sql.vos
+Props/C06.vo Props/C06.glob Props/C06.v.beautified Props/C06.required_vo: Props/C06.v Model/Mon.vo Model/MonC06.vo Model/MonC01.vo Model/MonC05.vo Model/MonC08.vo Proofs/SysInv.vo Proofs/PC06.vo Proofs/PC01.vo Proofs/PC05.vo Proofs/PC08.vo Model/Commit.vo Gen/Sql.vo
+Props/C06.vio: Props/C06.v Model/Mon.vio Model/MonC06.vio Model/MonC01.vio Model/MonC05.vio Model/MonC08.vio Proofs/SysInv.vio Proofs/PC06.vio Proofs/PC01.vio Proofs/PC05.vio Proofs/PC08.vio Model/Commit.vio Gen/Sql.vio
+Props/C06.vos Props/C06.vok Props/C06.required_vos: Props/C06.v Model/Mon.vos Model/MonC06.vos Model/MonC01.vos Model/MonC05.vos Model/MonC08.vos Proofs/SysInv.vos Proofs/PC06.vos Proofs/PC01.vos Proofs/PC05.vos Proofs/PC08.vos Model/Commit.vos Gen/Sql.vos
 Props/C19.vo Props/C19.glob Props/C19.v.beautified Props/C19.required_vo: Props/C19.v Model/Route.vo Model/Coro.vo
 Props/C19.vio: Props/C19.v Model/Route.vio Model/Coro.vio
 Props/C19.vos Props/C19.vok Props/C19.required_vos: Props/C19.v Model/Route.vos Model/Coro.vos
@@ -223,18 +238,18 @@ Props/C18.vos Props/C18.vok Props/C18.required_vos: Props/C18.v Model/Poll.vos P
 Props/C20.vo Props/C20.glob Props/C20.v.beautified Props/C20.required_vo: Props/C20.v Model/Mon.vo Model/MonC01.vo Model/MonC03.vo Proofs/StorePromises.vo Proofs/SysInv.vo Proofs/PC01.vo Proofs/PC03.vo
 Props/C20.vio: Props/C20.v Model/Mon.vio Model/MonC01.vio Model/MonC03.vio Proofs/StorePromises.vio Proofs/SysInv.vio Proofs/PC01.vio Proofs/PC03.vio
 Props/C20.vos Props/C20.vok Props/C20.required_vos: Props/C20.v Model/Mon.vos Model/MonC01.vos Model/MonC03.vos Proofs/StorePromises.vos Proofs/SysInv.vos Proofs/PC01.vos Proofs/PC03.vos
-Props/C12.vo Props/C12.glob Props/C12.v.beautified Props/C12.required_vo: Props/C12.v Model/Kernel.vo Proofs/PC12.vo
-Props/C12.vio: Props/C12.v Model/Kernel.vio Proofs/PC12.vio
-Props/C12.vos Props/C12.vok Props/C12.required_vos: Props/C12.v Model/Kernel.vos Proofs/PC12.vos
+Props/C12.vo Props/C12.glob Props/C12.v.beautified Props/C12.required_vo: Props/C12.v Model/Kernel.vo Proofs/PC12.vo Model/Aio.vo Proofs/PAio.vo Model/Loop.vo
+Props/C12.vio: Props/C12.v Model/Kernel.vio Proofs/PC12.vio Model/Aio.vio Proofs/PAio.vio Model/Loop.vio
+Props/C12.vos Props/C12.vok Props/C12.required_vos: Props/C12.v Model/Kernel.vos Proofs/PC12.vos Model/Aio.vos Proofs/PAio.vos Model/Loop.vos
 Props/C11.vo Props/C11.glob Props/C11.v.beautified Props/C11.required_vo: Props/C11.v Model/Mon.vo Model/MonC11.vo Proofs/StorePromises.vo Proofs/PC11.vo
 Props/C11.vio: Props/C11.v Model/Mon.vio Model/MonC11.vio Proofs/StorePromises.vio Proofs/PC11.vio
 Props/C11.vos Props/C11.vok Props/C11.required_vos: Props/C11.v Model/Mon.vos Model/MonC11.vos Proofs/StorePromises.vos Proofs/PC11.vos
 Props/C02.vo Props/C02.glob Props/C02.v.beautified Props/C02.required_vo: Props/C02.v Model/Mon.vo Model/MonC01.vo Model/MonC02.vo Model/MonC03.vo Proofs/SysInv.vo Proofs/PC01.vo Proofs/PC03.vo Proofs/PC02.vo
 Props/C02.vio: Props/C02.v Model/Mon.vio Model/MonC01.vio Model/MonC02.vio Model/MonC03.vio Proofs/SysInv.vio Proofs/PC01.vio Proofs/PC03.vio Proofs/PC02.vio
 Props/C02.vos Props/C02.vok Props/C02.required_vos: Props/C02.v Model/Mon.vos Model/MonC01.vos Model/MonC02.vos Model/MonC03.vos Proofs/SysInv.vos Proofs/PC01.vos Proofs/PC03.vos Proofs/PC02.vos
-Props/C13.vo Props/C13.glob Props/C13.v.beautified Props/C13.required_vo: Props/C13.v Model/Mon.vo Model/MonC13.vo Model/Valid.vo Model/Route.vo Proofs/Discipline.vo Proofs/SysInv.vo Proofs/PC13.vo
-Props/C13.vio: Props/C13.v Model/Mon.vio Model/MonC13.vio Model/Valid.vio Model/Route.vio Proofs/Discipline.vio Proofs/SysInv.vio Proofs/PC13.vio
-Props/C13.vos Props/C13.vok Props/C13.required_vos: Props/C13.v Model/Mon.vos Model/MonC13.vos Model/Valid.vos Model/Route.vos Proofs/Discipline.vos Proofs/SysInv.vos Proofs/PC13.vos
+Props/C13.vo Props/C13.glob Props/C13.v.beautified Props/C13.required_vo: Props/C13.v Model/Mon.vo Model/MonC13.vo Model/Valid.vo Model/Route.vo Model/Plug.vo Proofs/Discipline.vo Proofs/SysInv.vo Proofs/PC13.vo
+Props/C13.vio: Props/C13.v Model/Mon.vio Model/MonC13.vio Model/Valid.vio Model/Route.vio Model/Plug.vio Proofs/Discipline.vio Proofs/SysInv.vio Proofs/PC13.vio
+Props/C13.vos Props/C13.vok Props/C13.required_vos: Props/C13.v Model/Mon.vos Model/MonC13.vos Model/Valid.vos Model/Route.vos Model/Plug.vos Proofs/Discipline.vos Proofs/SysInv.vos Proofs/PC13.vos
 Props/C15.vo Props/C15.glob Props/C15.v.beautified Props/C15.required_vo: Props/C15.v Gen/Status.vo Spec/Front15.vo Model/Coro.vo Model/Equiv.vo Model/Render.vo Proofs/PC15.vo
 Props/C15.vio: Props/C15.v Gen/Status.vio Spec/Front15.vio Model/Coro.vio Model/Equiv.vio Model/Render.vio Proofs/PC15.vio
 Props/C15.vos Props/C15.vok Props/C15.required_vos: Props/C15.v Gen/Status.vos Spec/Front15.vos Model/Coro.vos Model/Equiv.vos Model/Render.vos Proofs/PC15.vos
